@@ -2,6 +2,7 @@ package main
 
 import (
 	"fmt"
+	"math"
 
 	"sigs.k8s.io/structured-merge-diff/v6/fieldpath"
 	"sigs.k8s.io/structured-merge-diff/v6/schema"
@@ -292,6 +293,10 @@ func genC09(e *emitter, tier string) {
 	nt /= shardCount
 	for k := 0; k < nt; k++ {
 		sameT, detail := typedRepeat(e)
+		e.line(fmt.Sprintf("(c09.typed %s %s)", sexpBool(sameT), quote(detail)))
+	}
+	for k := 0; k < nt*2; k++ {
+		sameT, detail := bytesStable(e)
 		e.line(fmt.Sprintf("(c09.typed %s %s)", sexpBool(sameT), quote(detail)))
 	}
 	for k := 0; k < nt*2; k++ {
@@ -608,6 +613,42 @@ func reconcileRepeat(e *emitter) (bool, string) {
 		if got := render(); got != first {
 			return false, "reconciling the same record with the same schema gave another result after a reconciliation that failed"
 		}
+	}
+	return true, ""
+}
+
+// the bytes a serialisation returned stay what they were whatever is serialised afterwards
+// (successfully or not)
+func bytesStable(e *emitter) (bool, string) {
+	v1 := randomValue(e, 3)
+	b1, err := value.ToJSON(value.NewValueInterface(v1))
+	if err != nil {
+		return true, ""
+	}
+	ref := string(b1)
+	fs := fieldpath.NewSet(pathUniverse()[:5+e.rng.Intn(10)]...)
+	j1, err := fs.ToJSON()
+	if err != nil {
+		return true, ""
+	}
+	refSet := string(j1)
+	for i := 0; i < 3; i++ {
+		func() {
+			defer func() { recover() }()
+			value.ToJSON(value.NewValueInterface(M{"w": math.NaN(), "x": randomValue(e, 2)}))
+			value.ToJSON(value.NewValueInterface(randomValue(e, 3)))
+			fieldpath.NewSet(pathUniverse()[3:9]...).ToJSON()
+		}()
+	}
+	if string(b1) != ref {
+		return false, "the bytes returned by value.ToJSON changed after later serialisations"
+	}
+	if string(j1) != refSet {
+		return false, "the bytes returned by Set.ToJSON changed after later serialisations"
+	}
+	b2, _ := value.ToJSON(value.NewValueInterface(v1))
+	if string(b2) != ref {
+		return false, "serialising the same value again gave other bytes"
 	}
 	return true, ""
 }
